@@ -410,6 +410,24 @@ def snapshot(roots, depth=8, shapes=False):
     return out
 
 
+def _vk_equal(x, y):
+    """value keys equal up to float rounding (floats are treated as reals, DESIGN S1)"""
+    if x == y:
+        return True
+    if isinstance(x, tuple) and isinstance(y, tuple) and len(x) == len(y) and x and x[0] == y[0]:
+        if x[0] == 'num':
+            try:
+                a, b = complex(x[1]), complex(y[1])
+            except Exception:
+                return False
+            if a != a and b != b:
+                return True
+            return abs(a - b) <= 1e-9 * (1 + abs(a) + abs(b))
+        if x[0] == 'arr':
+            return x[1] == y[1] and len(x[2]) == len(y[2]) and all(_vk_equal(p, q) for p, q in zip(x[2], y[2]))
+    return False
+
+
 def frame_diff(before, after, assigns):
     """paths whose value or identity changed and that are not covered by `assigns` (fnmatch)"""
     import re
@@ -419,7 +437,7 @@ def frame_diff(before, after, assigns):
         b, a = before.get(k), after.get(k)
         if b == a:
             continue
-        if b is not None and a is not None and b[1] == a[1]:
+        if b is not None and a is not None and _vk_equal(b[1], a[1]):
             continue
         if any(p.match(k) for p in pats):
             continue
